@@ -72,6 +72,8 @@ def walk_exprs_of_expr(e):
         subs = [x for f, x in e[2]]
     elif k == 'aggx':
         subs = [e[2]]
+        for l in walk_lits(e[3]):
+            subs.extend(lit_exprs(l))
     else:
         subs = []
     for s in subs:
@@ -114,6 +116,10 @@ def deps_of_rule(r):
     for e in rule_exprs(r):
         if e[0] == 'fcall':
             d.add(e[1])
+        elif e[0] == 'aggx':
+            for l in walk_lits(e[3]):
+                if l[0] == 'call':
+                    d.add(l[1])
     return d
 
 
